@@ -16,8 +16,9 @@ EXPLANATION = (
     'modelled) against the table written from the property text (vacant: handles=1, sync=opts.sync, callback once; '
     'occupied: handles+1, sync := sync or opts.sync, callback not called; close: vacant => true untouched, occupied => '
     'handles-1, removed and true iff it reached 0); (R4) mutating actions are awaited inline, spawn_local occurs only for '
-    'the streaming reads, shutdown flushes then closes then replies with the store. NOT decided: behaviour with several '
-    'concurrent clients beyond the single-consumer loop.'
+    'the streaming reads, shutdown flushes then closes then replies with the store. (R5) the API handlers doc_open / '
+    'doc_close evaluated: one forwarded open / close of the requested document, failure reported. NOT decided: behaviour '
+    'with several concurrent clients beyond the single-consumer loop.'
 )
 ASSUMPTIONS = ["the action loop is the only consumer of the action channel", "tracing macro expansions are effect-free"]
 
@@ -368,8 +369,18 @@ def r4(ctx):
     ctx.floor("C14.R4", 3)
 
 
+def r5(ctx):
+    """the API layer: open and close requests are forwarded one to one (a handler that opens twice or closes another document
+    breaks the handle count the actor keeps)"""
+    from . import apifw
+    apifw.check_forwarder(ctx, "C14.R5", "doc_open", "OpenRequest", ["open(req.doc_id,"], "Ok(OpenResponse)")
+    apifw.check_forwarder(ctx, "C14.R5", "doc_close", "CloseRequest", ["close(req.doc_id)"], "Ok(CloseResponse)")
+    ctx.floor("C14.R5", 4)
+
+
 def run(ctx):
     ctx.run_rule("C14.R1", r1)
     ctx.run_rule("C14.R2", r2)
     ctx.run_rule("C14.R3", r3)
     ctx.run_rule("C14.R4", r4)
+    ctx.run_rule("C14.R5", r5)
